@@ -56,6 +56,11 @@ func oracleAtomic(lab *txnLab, before map[string]map[string]map[string]val.Val, 
 				return fmt.Sprintf("operation %d failed but result %d is not null", firstErr, i)
 			}
 		}
+		for i := 0; i < firstErr; i++ {
+			if ob.Results[i].Kind == "null" {
+				return fmt.Sprintf("operation %d is the first to fail but result %d, of an operation before it, is null", firstErr, i)
+			}
+		}
 	default:
 		if len(ob.Results) != n+1 || firstErr != n {
 			return fmt.Sprintf("commit-time error at position %d of %d results for %d operations", firstErr, len(ob.Results), n)
